@@ -39,8 +39,8 @@ KANI_GROUPS = {
     "renko": dict(
         src="kani/renko.rs", append_to="src/methods/renko.rs", module="methods::renko::verif_renko",
         harnesses=[dict(name="vk_renko_boundary_concrete", kind="bounded(one concrete boundary price)", timeout=300, tier="quick"),
-                   dict(name="vk_renko_up_symbolic", kind="complete", timeout=3000, tier="thorough"),
-                   dict(name="vk_renko_down_symbolic", kind="complete", timeout=3000, tier="thorough")]),
+                   dict(name="vk_renko_up_symbolic", kind="complete", timeout=600, tier="quick"),
+                   dict(name="vk_renko_down_symbolic", kind="complete", timeout=600, tier="quick")]),
     "text": dict(
         src="kani/text.rs", append_to="src/core/candles.rs", module="core::candles::verif_text",
         harnesses=[dict(name="vk_source_text_roundtrip", kind="complete", timeout=900, tier="thorough"),
